@@ -15,6 +15,7 @@ RULE = (
     "(denormals, +-0.0, values that change under a float32 cast), empty or full single-effect table, chain files given to evaluate_model in a drawn order (half of the cases: files in directories named with glob characters, spaces or non-ASCII letters); "
     "additionally a collection filled by a live model of that type across two add_observations calls (2 samples before, 2 after; and the concatenation of the two halves) is saved and reloaded; refusals: add beyond size, get_theta(-1/len), saving an empty holder. Non-trivial = (>=2 chains and a chain with >=10 samples) or a value that changes "
     "under float32. distinct = distinct case JSON."
+    ' Also: fixed cases in which the collection is written, read and re-written by separate interpreter processes.'
 )
 ASSUMPTIONS = [
     "NaN parameters are not generated (NaN payload equality through HDF5 is not part of the claim); magnitudes <= 1e100 so predictions stay finite",
@@ -67,6 +68,55 @@ def _case(draw):
 
 def strategy(tier):
     return _case()
+
+
+def _xproc_params(kind, n, seed):
+    """posterior-sample parameters as plain lists (a pure function of the arguments; built alike by the writing and the comparing process)"""
+    r = np.random.default_rng(seed)
+    ns, nt, D = 3, 4, 2
+    out = []
+    pairs = [(c, t) for c in range(ns) for t in list(range(nt)) + [-1]]
+    for i in range(n):
+        p = {"kind": kind, "W": r.normal(size=(ns, D)).tolist(), "V2": r.normal(size=(nt, D)).tolist(), "precision": float(r.uniform(0.5, 50))}
+        if kind == "additive":
+            p.update(W0=r.normal(size=ns).tolist(), V1=r.normal(size=(nt, D)).tolist(), V0=r.normal(size=nt).tolist(), alpha=0.1 * i)
+            if i % 2:
+                p["W0"][0], p["V0"][1] = -0.0, 5e-324
+        else:
+            order = r.permutation(len(pairs)) if i == 0 else order  # noqa: F821  (one table order per collection, not sorted)
+            p["table"] = [[pairs[j][0], pairs[j][1], 1.0 if pairs[j][1] == -1 else float(0.05 + 0.9 * ((j * 37) % 100) / 100.0)] for j in order]
+        out.append(p)
+    return out
+
+
+def exhaustive(tier):
+    # the collection written by one interpreter process and read (then written again) by others with other string-hash salts,
+    # as the pipeline's stages do
+    for kind, n, seed in [("additive", 5, 1), ("interaction", 4, 2)] + ([("additive", 33, 3), ("interaction", 17, 4), ("additive", 1, 5)] if tier != "quick" else []):
+        yield {"xproc": {"kind": kind, "n": n, "seed": seed}, "hashseeds": [300 + seed, 4000 - 7 * seed]}
+
+
+def _check_xproc(case):
+    from batchie.core import ThetaHolder
+    from vf import xproc
+
+    want = S.build_holder(_xproc_params(**case["xproc"]))
+    p1, p2 = tmp.fresh("xproc_thetas_a.h5"), tmp.fresh("xproc_thetas_b.h5", odd=case["xproc"]["seed"])
+    try:
+        ok, text = xproc.python("from checks import c10_theta_persist as c\nS.build_holder(c._xproc_params(**params['g'])).save_h5(params['path'])\n", case["hashseeds"][0], g=case["xproc"], path=p1)
+        require(ok, "xproc.save_failed", lambda: "saving the collection in its own process failed: %s" % text[-600:])
+        ok, text = xproc.python("from batchie.core import ThetaHolder\nThetaHolder.load_h5(params['src']).save_h5(params['dst'])\n", case["hashseeds"][1], src=p1, dst=p2)
+        require(ok, "xproc.resave_failed", lambda: "loading and saving the collection in a third process failed: %s" % text[-600:])
+        for tag, p in (("saved_by_another_process", p1), ("passed_through_two_other_processes", p2)):
+            got = ThetaHolder.load_h5(p)
+            require(len(got.thetas) == len(want.thetas) and int(got.n_thetas) == int(want.n_thetas), tag + ".count", lambda: "%d samples written, %d read" % (len(want.thetas), len(got.thetas)))
+            for k, (a, b) in enumerate(zip(want.thetas, got.thetas)):
+                require(type(a) is type(b), tag + ".type", "sample type changed")
+                msg = _same_theta(a, b)
+                require(msg is None, tag + ".parameters", lambda: "sample %d: %s" % (k, msg))
+    finally:
+        tmp.cleanup(p1, p2)
+    return {"nontrivial": True, "labels": ["one-process-per-step", case["xproc"]["kind"]]}
 
 
 def _param_items(theta):
@@ -157,6 +207,8 @@ def _model_built(case, screen, paths):
 
 
 def check_case(case):
+    if "xproc" in case:
+        return _check_xproc(case)
     from batchie.core import ThetaHolder
     from batchie.models.main import ModelEvaluation
 
